@@ -80,6 +80,9 @@ def check(ctx: Ctx) -> None:
                'in as N0_or_Rek/Rek is PSD by contract; np.dot/@ and the repo spellings of the adjoint are recognised')
     from ..units import check_units
     check_units(ctx, 'C11.e', [MU, IA, ALG], floor=2)
+    from ..idioms import check_restores_protected, check_no_cyclic_resize
+    check_restores_protected(ctx, 'C11.f', [MU, IA, ALG], floor=100)
+    check_no_cyclic_resize(ctx, 'C11.g', [MU, IA, ALG], floor=100)
     # ------------------------------------------------------------------ C11.a
     ctx.rule('C11.a', 'IA-side covariance/SINR code reads full_F / full_W_H / _get_channel only', floor=8)
     funcs = [M.func(IA, q) for q in IA_FUNCS] + [M.func(ALG, 'AlternatingMinIASolver.get_cost')]
